@@ -86,7 +86,7 @@ func runFunctions(e *Engine, keys []string, opts VerifyOpts) []*FuncResult {
 	for i, k := range keys {
 		fn, ok := e.funcs[k]
 		if !ok {
-			results[i] = &FuncResult{Key: k, Display: k, OutOfReach: "function not found in /repo (contract no longer binds)"}
+			results[i] = &FuncResult{Key: k, Display: k[strings.LastIndex(k, "/")+1:], OutOfReach: "function not found in /repo (contract no longer binds)"}
 			continue
 		}
 		wg.Add(1)
@@ -187,6 +187,9 @@ func cmdCheck(args []string) int {
 			os.Exit(1)
 		}
 	} else {
+		for k, where := range e.unbound {
+			fmt.Printf("[%s] note: the contract for %s (%s) binds to no function in /repo\n", id, k, where)
+		}
 		results = runFunctions(e, pc.Functions, VerifyOpts{TimeoutS: timeout, OutDir: workDir})
 	}
 	var bounded []BoundedResult
